@@ -9,7 +9,7 @@ CONSTANTS
   OpTimes = {0, 1}
   TaskTimes = {0, 1}
   MaxOps = 4
-  MaxTicks = 7
+  MaxTicks = 6
   Variant = "code"
 INVARIANT TypeOK
 INVARIANT Conforms
